@@ -166,7 +166,11 @@ func (av arrayValue) IndexValue(iv Value) Value {
 	case float64:
 		n = int(ix)
 	default:
-		return nilValue
+		// an integer of any other width indexes like an int
+		var ok bool
+		if n, ok = intOf(ix); !ok {
+			return nilValue
+		}
 	}
 	if n < 0 {
 		n += ar.Len()
